@@ -15,12 +15,12 @@ LEN_TYPES = ["u8", "u64", "i64", "int", "char", "bool", "f32", "f64", "opt(u8)",
 RULE = ("The same deterministic corpus (well-formed items with all head widths and indefinite forms, mutated and truncated items, short random "
         "inputs) is fed to six separately built binaries, minicbor with {no features, alloc, std} x {half, -}: every Decoder accessor (CD), "
         "typed decodes of the types present in every configuration (CT), Encoder methods into a slice (CE), decode + cbor_len + re-encode "
-        "(CL). Each binary is compared with the extracted model *evaluated at that configuration* (so the never-compiled "
+        "(CL), and the serde bridge's serialise / deserialise on C17's type family (CSER, CDES; minicbor-serde built with the same feature sets). Each binary is compared with the extracted model *evaluated at that configuration* (so the never-compiled "
         "#[cfg(not(feature = \"alloc\"))] code is executed and tied to its model), and the six transcripts are compared with each other "
         "line by line: equal, or one of the documented differences (no-alloc skip / unknown-field skip refusing an indefinite container "
         "nested in a definite one with a message error; no-half f16 items a type error; operations absent from a configuration). "
         "Non-trivial: input longer than one byte.")
-ASSUMPTIONS = ["minicbor-serde's configurations are compared under C17/C18's serde harness where built; here minicbor itself",
+ASSUMPTIONS = ["the harness binaries themselves use std (and serde with std) for value parsing/printing; only the features of minicbor and minicbor-serde vary",
                "message texts are not compared (static vs formatted messages are a documented difference)"]
 _BIN = {}
 
@@ -94,6 +94,18 @@ def generate(tier, rng):
             for c in CONFIGS:
                 out.append("CT range(u8) %s 0 %s" % (hexs(enc), c))
                 out.append("CT duration %s 0 %s" % (hexs(enc), c))
+    # the serde bridge (minicbor-serde built with the same feature sets): C17's stream, every configuration
+    import C17 as c17
+    lines = c17.generate("quick", rng)
+    step = 2 if tier == "thorough" else 9
+    for l in lines[:: step] + [x for x in lines if x.startswith(("SER disp", "DE any", "SER iseq", "SER imap"))][:: 3]:
+        t = l.split()
+        if t[0] not in ("SER", "DE") or len(t) != 3: continue
+        for c in CONFIGS:
+            out.append("%s %s %s %s" % ("CSER" if t[0] == "SER" else "CDES", t[1], t[2], c))
+    for b in ("5f4101ff", "7f6161ff", "7fff", "5fff", "f93c00", "f97e00", "817f6161ff", "a17f6161ff01", "82f93c00f6"):
+        for key in ("any", "string", "bytebuf", "f32", "f64", "ign", "opt(string)"):
+            for c in CONFIGS: out.append("CDES %s %s %s" % (key, b, c))
     for m, vals in (("u8", [0, 23, 24, 255]), ("u16", [255, 256, 65535]), ("u32", [65535, 65536, (1 << 32) - 1]), ("u64", [1 << 32, U64]),
                     ("i8", [-128, -25, -24, -1, 127]), ("i64", [-(1 << 63), -(1 << 32) - 1]), ("int", [-(1 << 64), U64]), ("simple", [0, 19, 20, 23, 24, 31, 32, 255]),
                     ("char", [0x41, 0x10ffff]), ("f32", [0, 0x7fc00000, 0x3f800000]), ("f64", [0, 1 << 63]), ("f16", [0x3f800000, 0x7f800000, 0x33800000, 0x477ff000]),
@@ -110,7 +122,8 @@ def nontrivial(line, impl):
 
 def classify(line, impl):
     t = line.split()
-    return t[0] + ":" + t[-1] + ":" + impl.split("@")[0].split(":")[0][:10]
+    main = impl.split(";")[1] if t[0] == "CSER" and ";" in impl else impl
+    return t[0] + ":" + t[-1] + ":" + main.split("@")[0].split(":")[0][:10]
 
 def cross_check(cases, impl, model):
     """Transcripts of the six configurations, line by line: equal, or a documented difference.  A difference counts as
@@ -131,6 +144,8 @@ def cross_check(cases, impl, model):
             def documented(cfg, res, mod):
                 if res != mod: return False          # not what the proved model predicts at this configuration
                 if "a" not in cfg and "s" not in cfg and res.startswith("err:message"): return True
+                # the bridge without alloc rejects indefinite-length strings under deserialize_any and refuses collect_str
+                if "a" not in cfg and "s" not in cfg and (res.startswith("err:type:indefinite_") or res.startswith("refused")): return True
                 if "h" not in cfg and res.startswith("err:type:f16"): return True
                 return False
             if documented(c, r, m) or documented(ref_c, ref, ref_m): continue
